@@ -13,12 +13,12 @@ PROPERTY_ID = 'C12'
 
 RULE = ('SLIM: Hypothesis draws a state-space vector (2..5 cells, 1..4 states each), 0..3 single-cell reactions per cell and '
         '0..4 two-cell reactions per bond (reactant/product states uniform in range incl. reactant = product, rates in '
-        '[0.1,10]), open or cyclic (a d-th bond between last and first cell), threshold in {0, 1e-14, 1e-10}, or the '
+        '[0.1,10], handed over as floats, as python integers, or all multiplied by 1e-12 / 1e6), open or cyclic (a d-th bond between last and first cell), threshold in {0, 1e-14, 1e-10}, or the '
         'homogeneous shortcut; the generator is compared with the dense master-equation generator obtained by enumerating '
         'every global state and every applicable reaction (rate added to G[target, source], subtracted from the diagonal), '
         'plus explicit column-sum and sign checks. Ulam: integer transition tables (1-based, repeats and unsampled boxes '
         'allowed) on 1..4 boxes per axis in 2-D and 3-D are compared with a numpy.add.at histogram divided by the number of '
-        'simulations. Non-trivial: cyclic, unequal cell sizes, an empty reaction list, unequal bond ranks, or (Ulam) repeated '
+        'simulations; the table is passed as int64 / int32 / uint8, C- or Fortran-ordered or as a strided view. Non-trivial: cyclic, unequal cell sizes, an empty reaction list, unequal bond ranks, or (Ulam) repeated '
         'transitions / unsampled boxes.')
 ASSUMPTIONS = [
     'oracle: explicit enumeration of global states and reactions (pure Python/NumPy)',
@@ -27,6 +27,25 @@ ASSUMPTIONS = [
     's/s[0] of an all-zero interaction core is undefined)',
     'Ulam: every listed transition stays inside the grid; simulations >= 1',
 ]
+
+
+# how the drawn rates are handed over: as they are, all multiplied by a common factor (a relative threshold is
+# scale-invariant), or rounded up to python integers (rates are documented as numbers; 1 and 10 are as valid as 1.0)
+RATE_FORM = st.sampled_from(['plain', 'plain', 'plain', 'int', 'x1e-12', 'x1e6'])
+
+
+def apply_rate_form(reacts, form):
+    out = []
+    for r in reacts:
+        r = list(r)
+        if form == 'int':
+            r[-1] = int(np.ceil(r[-1]))
+        elif form == 'x1e-12':
+            r[-1] = r[-1] * 1e-12
+        elif form == 'x1e6':
+            r[-1] = r[-1] * 1e6
+        out.append(r)
+    return out
 
 
 def reaction_lists(draw, sizes, cyclic):
@@ -54,7 +73,7 @@ def slim_case(draw):
     cyclic = draw(st.booleans())
     single, two = reaction_lists(draw, sizes, cyclic)
     return {'sizes': sizes, 'cyclic': cyclic, 'single': single, 'two': two,
-            'threshold': draw(st.sampled_from([0, 0, 1e-14, 1e-10]))}
+            'threshold': draw(st.sampled_from([0, 0, 1e-14, 1e-10])), 'rate_form': draw(RATE_FORM)}
 
 
 @st.composite
@@ -68,7 +87,8 @@ def hom_case(draw):
     nt_ = draw(st.integers(0, 4))
     two = [[draw(st.integers(0, n - 1)), draw(st.integers(0, n - 1)), draw(st.integers(0, n - 1)), draw(st.integers(0, n - 1)),
             draw(st.sampled_from([0.1, 1.0, 4.0]))] for _ in range(nt_)]
-    return {'sizes': sizes, 'cyclic': cyclic, 'single': single, 'two': two, 'threshold': draw(st.sampled_from([0, 0, 1e-14, 1e-10]))}
+    return {'sizes': sizes, 'cyclic': cyclic, 'single': single, 'two': two, 'threshold': draw(st.sampled_from([0, 0, 1e-14, 1e-10])),
+            'rate_form': draw(RATE_FORM)}
 
 
 def reference_generator(sizes, single, two):
@@ -111,7 +131,7 @@ def check_generator(op, sizes, G, lab):
     require_consistent(op, 'consistent')
     require(op.row_dims == sizes and op.col_dims == sizes, 'dims', 'rows %s cols %s' % (op.row_dims, op.col_dims))
     M = dense.matrix(op.cores)
-    scale = max(float(np.max(np.abs(G))), 1.0)
+    scale = float(np.max(np.abs(G))) or 1.0
     close(M, G, 1e-10, scale, 'generator_value', 'TT generator vs master-equation generator')
     close(M.sum(axis=0), np.zeros(M.shape[1]), 1e-10, scale, 'column_sums', 'column sums')
     off = M - np.diag(np.diag(M))
@@ -120,8 +140,13 @@ def check_generator(op, sizes, G, lab):
 
 def body_slim(case):
     sizes, single, two, th = case['sizes'], case['single'], case['two'], case['threshold']
+    form = case.get('rate_form', 'plain')
+    single = [apply_rate_form(x, form) for x in single]
+    two = [apply_rate_form(x, form) for x in two]
     d = len(sizes)
     lab = set()
+    if form != 'plain':
+        lab.add('rates_' + form)
     if case['cyclic']:
         lab.add('cyclic')
         if len(two) != d:
@@ -149,8 +174,12 @@ def body_slim(case):
 
 def body_hom(case):
     sizes, single, two, th = case['sizes'], case['single'], case['two'], case['threshold']
+    form = case.get('rate_form', 'plain')
+    single, two = apply_rate_form(single, form), apply_rate_form(two, form)
     d = len(sizes)
     lab = {'homogeneous'}
+    if form != 'plain':
+        lab.add('rates_' + form)
     if case['cyclic']:
         lab.add('cyclic')
     if th != 0 and not effective(two):
@@ -174,7 +203,8 @@ def ulam_case(draw):
     grid = [draw(st.integers(1, 4)) for _ in range(dim)]
     sims = draw(st.integers(1, 5))
     mode = draw(st.sampled_from(['full', 'full', 'sparse']))
-    return {'dim': dim, 'grid': grid, 'sims': sims, 'mode': mode, 'seed': draw(gen.SEED), 'k': draw(st.integers(1, 30))}
+    return {'dim': dim, 'grid': grid, 'sims': sims, 'mode': mode, 'seed': draw(gen.SEED), 'k': draw(st.integers(1, 30)),
+            'form': draw(st.sampled_from(['int64', 'int64', 'int32', 'fortran', 'strided', 'uint8']))}
 
 
 def body_ulam(case):
@@ -198,11 +228,24 @@ def body_ulam(case):
     tgt = tuple(T[dim + i] - 1 for i in range(dim))
     np.add.at(want, tgt + src, 1.0)
     want /= sims
-    op = ulam.ulam_2d(T.copy(), list(grid), sims) if dim == 2 else ulam.ulam_3d(T.copy(), list(grid), sims)
+    form = case.get('form', 'int64')
+    Tin = T.copy()
+    if form == 'int32':
+        Tin = T.astype(np.int32)
+    elif form == 'uint8':
+        Tin = T.astype(np.uint8)            # unsigned box indices: index - 1 must not wrap around
+    elif form == 'fortran':
+        Tin = np.asfortranarray(T)
+    elif form == 'strided':
+        big = np.zeros((T.shape[0], 2 * T.shape[1]), dtype=np.int64)
+        big[:, ::2] = T
+        Tin = big[:, ::2]
+    op = ulam.ulam_2d(Tin, list(grid), sims) if dim == 2 else ulam.ulam_3d(Tin, list(grid), sims)
+    require(np.array_equal(np.asarray(Tin, dtype=np.int64), T), 'transitions_unchanged', 'the transition table was modified')
     require_consistent(op, 'consistent')
     require(op.row_dims == grid and op.col_dims == grid, 'dims', 'rows %s cols %s' % (op.row_dims, op.col_dims))
     close(dense.contract(op.cores), want, 1e-12, 1.0 + float(want.max()), 'ulam_value', 'Ulam operator vs histogram')
-    lab = {'ulam%dd' % dim, case['mode']}
+    lab = {'ulam%dd' % dim, case['mode'], 'form_' + form}
     M = dense.matrix(op.cores)
     if case['mode'] == 'full':
         close(M.sum(axis=0), np.ones(M.shape[1]), 1e-12, 1.0, 'ulam_column_sums', 'columns of fully sampled boxes')
